@@ -32,6 +32,10 @@ WM = WithMethod()
 def s_perm(a, b, c, d):
     return 1
 
+@icontract.require(lambda a: a > 100)
+def s_ticket(a, b, c, d):
+    return 1
+
 @icontract.require(lambda tags, cfg: len(tags) > 10 and cfg)
 def s_hash(tags, cfg, extra=frozenset(["q", "rr", "sss"])):
     return 1
@@ -177,6 +181,23 @@ def main():
             if rep == 1:
                 violation_message(ns["s_hash"], tags={"p"}, cfg={})
     same("perm", msgs)
+    # 1b. ... with values whose repr depends on mutable global state (a running ticket number): the values must be rendered in an
+    # order which does not depend on the order of the keywords, else the text does
+    class Ticket:
+        counter = [0]
+
+        def __init__(self, tag):
+            self.tag = tag
+
+        def __repr__(self):
+            Ticket.counter[0] += 1
+            return "{}#{}".format(self.tag, Ticket.counter[0])
+    tmsgs = []
+    for perm in itertools.permutations(("b", "c", "d")):
+        Ticket.counter[0] = 0
+        kw = {k: Ticket(k) for k in perm}
+        tmsgs.append(violation_message(ns["s_ticket"], a=0, **kw))
+    same("perm_stateful_repr", tmsgs)
     # 2. sets / dicts of strings under this hash seed; dict built in different insertion orders
     tags = {"x", "yy", "zzz", "w", "vvvvv"}
     m = []
@@ -209,16 +230,22 @@ def main():
     for cond_src, call_kwargs in (
             ("type(a) == str", {}), ("tbl['f'] is None", {}), ("tbl['k'] is None", {}), ("getattr(a, 'bit_length') is None", {}), ("ident_fn(len) is None", {}),
             ("a.__add__ is None", {}), ("str.upper is None", {}), ("type(a).__add__ is None", {}), ("ident_fn(a.__eq__) is None", {}),
-            ("tbl.get is None", {}), ("dict.fromkeys is None", {})):
-        src2 = "import icontract\ndef ident_fn(v):\n    return v\nclass Cls2: pass\nclass Tbl(dict):\n    def __repr__(self):\n        return 'Tbl'\n@icontract.require(lambda a, tbl: {})\ndef f(a, tbl, other=3):\n    return 1\n".format(cond_src)
+            ("tbl.get is None", {}), ("dict.fromkeys is None", {}),
+            # callables which are neither functions nor methods in the narrow sense
+            ("cached_fn(a) is None", {}), ("ident_fn(cached_fn) is None", {}), ("tbl['c'] is None", {}), ("Cls2.sm is None", {}), ("tbl['s'] is None", {}),
+            # iterators made inside the condition: their default representation is an address
+            ("zip(tbl, tbl) is None", {}), ("map(ident_fn, [a]) is None", {}), ("iter([a]) is None", {}), ("reversed([a]) is None", {}),
+            ("enumerate([a]) is None", {}), ("filter(None, [a]) is None", {}), ("ident_fn(v for v in [a]) is None", {})):
+        src2 = "import functools\nimport icontract\ndef ident_fn(v):\n    return v\n@functools.lru_cache(maxsize=None)\ndef cached_fn(v):\n    return v\nclass Cls2:\n    @staticmethod\n    def sm():\n        return 1\nclass Tbl(dict):\n    def __repr__(self):\n        return 'Tbl'\n@icontract.require(lambda a, tbl: {})\ndef f(a, tbl, other=3):\n    return 1\n".format(cond_src)
         ns2 = core.load_source(src2, "c20u")
-        msg = violation_message(ns2["f"], a=1, tbl=ns2["Tbl"](f=ns2["ident_fn"], k=ns2["Cls2"]))
-        out["unrep_result:" + cond_src] = msg
+        msg = violation_message(ns2["f"], a=1, tbl=ns2["Tbl"](f=ns2["ident_fn"], k=ns2["Cls2"], c=ns2["cached_fn"], s=vars(ns2["Cls2"])["sm"]))
+        is_iter = cond_src.split("(")[0] in ("zip", "map", "iter", "reversed", "enumerate", "filter") or "for v in" in cond_src
+        out[("iter_result:" if is_iter else "unrep_result:") + cond_src] = msg
         body = msg.split("\n", 1)[-1]
         lines_ = [ln for ln in body.split("\n")[1:] if " was " in ln and not ln.startswith("tbl was")]
         for ln in lines_:
-            if any(b in ln for b in ("<function", "<class", "<module", "<built-in", "<bound method", "<method", "<slot wrapper")):
-                local.append({"symptom": "unrepresentable_value_listed", "scenario": "result_of_call_or_subscript",
+            if any(b in ln for b in ("<function", "<class", "<module", "<built-in", "<bound method", "<method", "<slot wrapper", "lru_cache_wrapper", "<staticmethod", "<zip", "<map", "iterator object", "<reversed", "<enumerate", "<filter", "<generator")):
+                local.append({"symptom": "unrepresentable_value_listed", "scenario": "result_is_iterator" if is_iter else "result_of_call_or_subscript",
                               "detail": "{!r} in the message for {!r}: {!r}".format(ln, cond_src, msg[:300])})
                 break
         if "a was 1" not in msg:
